@@ -361,7 +361,7 @@ def check_nonempty(F, run):
                             ok = True
                 run.check(ok, "R11.6", b["path"], "pop-guarded", F.loc(b, n), "`%s` can empty the coefficient vector (no `len > 1` guard)" % pp(n)[:50],
                           sample="%s: %s under len > 1" % (b["name"], pp(n)[:40]))
-    run.floor("R11.6", "polynomial", "pop sites", n_pop, 3)
+    run.floor("R11.6", "polynomial", "pop sites", n_pop, 2)
 
 
 def run(F, run, tier):
